@@ -9,7 +9,7 @@ def harness_files(tier, seed):
 
 
 META = dict(
-    bounds="tree SHAPE symbolic: up to two simultaneous faults chosen by the solver among 14 fault sites x 4 wrong kinds (str, list, float, "
+    bounds="tree SHAPE symbolic: up to two simultaneous faults chosen by the solver among 15 fault sites x 4 wrong kinds (str, list, float, "
            "None); leaves are concrete sentinels (rendering realises symbolic values, and the renderer's control flow depends on "
            "shape only); nesting <= 4, union width <= 3",
     configs="one rich target type: struct of (dataclass with nested dataclass, list of Union[int, dataclass], 3-member union, aliased "
